@@ -149,7 +149,8 @@ CLAIMS = {
             "'become combiner' which happens only after a won try_lock without unlock) inside an adopting lock_guard, after re-publishing the own "
             "record; request word published before combining; combining_pass applies only active records with a pending operation and marks them "
             "done once, right after; operation_done stores req_Response (release) before notifying; the wait reports 'done' only after reading "
-            "req_Response; compact_list frees only 'removed' records it unlinked by a successful CAS. The interleaving statement is not decided.",
+            "req_Response; compact_list frees only 'removed' records it unlinked by a successful CAS; wait strategies store nothing derived from a "
+            "publication record outside that record (R23.5). The interleaving statement is not decided.",
             PATHS, "DESIGN.md §4 C23"),
     "C24": ("other", "Path rules over the three Vyukov-queue pools and pool_allocator: deallocate gives an object to exactly one owner (queue iff in "
             "the preallocated range / lazy: queue xor heap), destroyed before published, refused pushes retried; allocate returns the popped "
